@@ -94,7 +94,8 @@ Ltac suffix_tac :=
 
 Ltac short_rewrites H :=
   rewrite ?l_yank_nil, ?l_yank_one, ?l_yank_two, ?l_shove_nil, ?l_shove_one, ?l_copy_nil,
-          ?l_remove_nil, ?l_replace_nil, ?gs_get_nil, ?gs_get_one_1 in H.
+          ?l_remove_nil, ?l_replace_nil, ?gs_get_nil, ?gs_get_one_1 in H;
+  cbn [fst snd] in H.
 
 (* one case split at a time: the short-stack rewrites cannot fire under the binders of a match *)
 Ltac split_step H :=
@@ -109,7 +110,7 @@ Ltac split_step H :=
 Ltac unfired_finish H :=
   repeat (short_rewrites H; split_step H); short_rewrites H;
   inversion H; subst; clear H;
-  (split; [|reflexivity]);
+  (split; [|first [reflexivity | match goal with |- _ = ?w => destruct w; reflexivity end]]);
   unfold only_pops;
   cbn [st_bool st_code st_exec st_float st_index st_int st_name st_bvec st_fvec st_ivec st_input st_output
        st_graph st_bind st_cfg st_quote st_send];
